@@ -5,5 +5,6 @@ CONSTANTS Inputs = {"src", "prog"}
  Results = {"r1", "r2"}
  ObjDigests = {"d1", "d2"}
  Correct = TRUE
-INVARIANTS StageAgree EnvIndep ObjFix BuildOrder TypeOK
+ CtxDep = FALSE
+INVARIANTS StageAgree SelfAgree EnvIndep ObjFix BuildOrder TypeOK
 CHECK_DEADLOCK FALSE
